@@ -101,6 +101,11 @@ CHECKS = {
          "Stress: up to 6 logging and 2 reconfiguring threads on one Logger; every record's deliveries must carry a single generation, equal the routing model of exactly that generation (shapes with different table sizes and levels), and that generation must be admissible w.r.t. the stamped set_config calls. Re-entrancy at every fan-out position. Reloader: edit histories (valid / unchanged / touch / syntax error / unknown key / deletion / rate change or removal) with exact expectations on result, construction count and routing after each poll; thorough adds the real init_file + reloader thread end to end and Miri seeds.",
          "Trusted: routing model; stamps are taken at the client boundary. Schedules are sampled by stress volume; the two-load window inside Logger::log cannot be widened by a hook.",
          "DESIGN.md §4 C15"),
+ "C14": ("exploration",
+         "runtime monitor: logical configurations rendered to YAML / JSON / TOML by independent serializers, loaded with load_config_file and driven; accessor view, component Debug fingerprints and written files compared with the document, across formats and with the programmatic build; injected defects checked against strict and lossy pipelines under a panic trap",
+         "Every generated logical configuration is loaded in four file flavours and built programmatically; each resulting Logger is driven with the same probe set over pre-populated files so that defaults (additive, append, encoder kind and pattern, policy kind, base, min_size) and rolling policies (exact file layout) are observed behaviourally. 26 kinds of injected defects (unknown keys in all eight sections, wrong types, unknown kinds, missing fields, broken filters among valid siblings, dangling names, degenerate numbers) must be rejected by the strict pipeline and reported + dropped by the lossy one while the rest keeps working; nothing may panic.",
+         "Trusted: serde_yaml / serde_json / toml serializers as emitters, routing model, line parsers for the fixed encoder patterns. Syntax features the serializers never emit are not exercised.",
+         "DESIGN.md §4 C14"),
 }
 
 NOT_YET = {}
